@@ -367,6 +367,42 @@ func ruleC10Reslice(r *Run) {
 		})
 	}
 	r.Exists(rule, "reslice sites", token.NoPos, n >= 1, fmt.Sprintf("%d re-slices of pooled slice fields examined", n))
+	// a field that is reset by x = x[:0] keeps a non-nil header once any request has appended to it: its length is
+	// pristine, its nil-ness is not. Module code therefore never decides anything on `field == nil` / `!= nil` — only
+	// on len(field): "has this request recorded an error" asked as Errors != nil is answered by an earlier request.
+	resliced := map[*types.Var]bool{}
+	for p, a := range definiteAssign(w, initFn, 0) {
+		if _, ok := a.val.(*ssa.Slice); ok && !strings.Contains(p, ".") {
+			if fv := w.FieldOpt("rux", "Context", p); fv != nil {
+				resliced[fv] = true
+			}
+		}
+	}
+	nNil := 0
+	for _, f := range w.Funcs {
+		eachInstr(f, func(in ssa.Instruction) {
+			b, ok := in.(*ssa.BinOp)
+			if !ok || (b.Op != token.EQL && b.Op != token.NEQ) {
+				return
+			}
+			var fld ssa.Value
+			switch {
+			case isNilConst(b.Y):
+				fld = b.X
+			case isNilConst(b.X):
+				fld = b.Y
+			default:
+				return
+			}
+			for fv := range resliced {
+				if isLoadOfField(fld, fv) {
+					nNil++
+					r.Check(rule, fmt.Sprintf("%s:nil test of %s#%d", FuncName(f), fv.Name(), nNil), w.InstrPos(in), false, "Context."+fv.Name()+" is compared with nil, but Reset only re-slices it to length 0: on a recycled context the answer depends on what an earlier request appended (use len())")
+				}
+			}
+		})
+	}
+	r.Exists(rule, "nil tests of re-sliced fields", token.NoPos, true, fmt.Sprintf("%d re-sliced field(s), %d comparison(s) with nil in the module", len(resliced), nNil))
 }
 
 // C10-INIT second half: HandleContext resets before dispatch.
